@@ -35,7 +35,9 @@ def cmd_import(src, n, seed_id, prop):
         shutil.copy("/repo/Cargo.lock", os.path.join(wt, "Cargo.lock"))
         os.makedirs(os.path.join(wt, "tests"), exist_ok=True)
         shutil.copy(demo, os.path.join(wt, "tests", "seed_demo.rs"))
-        env_target = f"CARGO_TARGET_DIR=/tmp/seed-target"
+        rf = os.environ.get("SEED_DEMO_RUSTFLAGS", "")
+        env_target = f"CARGO_TARGET_DIR=/tmp/seed-target" + (f" RUSTFLAGS='{rf}'" if rf else "")
+        meta["demo_rustflags"] = rf
         # pristine: demo passes
         flags = os.environ.get("SEED_DEMO_FLAGS", "")
         meta["demo_flags"] = flags
